@@ -6,7 +6,8 @@ import Operon.Model.ImmuneWindow
 Fingerprint = 10 tokens `lenMean lenStd timeMean timeStd confMean confStd vocab struct errRate canary|none`.
 Stand-alone T cell:  `tcell rep anergy lenLo lenHi timeLo timeHi confLo confHi errMax vocabs structs canaryMin`,
   `inspect <fp>`, `check <fp>`, `flag b`, `treset`, `tresetfa`, `tset rep|anergy k`, `tset profile <profile>`
-  (assignment to the public attributes after construction).
+  (assignment to the public attributes after construction), `tmut <profile>` / `pmut a <profile>` (the profile object the
+  watcher holds mutated in place, attribute by attribute).
 Stand-alone Treg:    `treg stability (sev:cond)*`, `evaluate level action clean nviol anergic recent`.
 Stand-alone thymus:  `tcfg min tol varThr`, `sample <fp>`, `ttrain sdLen sdTime sdConf` (installs a default T cell).
 Pipeline:            `sys minTrain tol varThr stability cap (sev:cond)*`, `reg a`, `show a <fp>|none`, `train a`,
@@ -23,7 +24,9 @@ Entry points with their defaults: `sysdef` = `ImmuneSystem()` (every component d
   `IntegratedCell.register_agent(a)` (the cell's `surveillance` being this system), `cexec a text|brk|none|empty|fail
   struct words len sdLen sdTime sdConf` = `IntegratedCell.execute(a, op, work)` with the wall clock frozen: a successful
   operation records `(str(output) if output else "", 0.0, tag.confidence = 1.0)`, a failing one records nothing.
-  `obs` / `canary` for an agent that was never registered raise ValueError.  `shadow`: an independent `ImmuneSystem()` and
+  `obs` / `canary` for an agent that was never registered raise ValueError.  `ids plain|case|nfc|num|sub`: from here on the
+  harness spells the agent numbers as look-alike id strings (case variants, NFC / NFD, white space, leading zero, prefixes,
+  the empty string): different agents all the same (no-op).  `shadow`: an independent `ImmuneSystem()` and
   stand-alone watcher / thymus come alive and confirm threats for the same agent ids and hashes (no shared state: no-op).
 Pipeline with the real display: `dreg a windowSize minObs`, `obs a text|brk|none|empty struct words len time conf err
   sdLen sdTime sdConf` (the three stdevs of the window after this observation), `canary a b`.  Public attributes of the display
@@ -195,6 +198,10 @@ def step (st : DSt) (toks : List String) : DSt × String :=
   | ["tset", "profile", a, b, c, d, e, f, em, vs, ss, cm] =>
     tstep st (·.setProfile
       ⟨ratOf a, ratOf b, ratOf c, ratOf d, ratOf e, ratOf f, ratOf em, natList vs, natList ss, ratOf cm⟩)
+  | ["tmut", a, b, c, d, e, f, em, vs, ss, cm] =>
+    -- the profile object the watcher holds mutated in place, attribute by attribute: the same new baseline
+    tstep st (·.setProfile
+      ⟨ratOf a, ratOf b, ratOf c, ratOf d, ratOf e, ratOf f, ratOf em, natList vs, natList ss, ratOf cm⟩)
   | ["treset"] => tstep st (·.reset)
   | ["tresetfa"] => tstep st (·.resetFA)
   | "treg" :: stab :: rules => ({ st with treg := ⟨rules.map ruleOf, intD stab⟩ }, "ok")
@@ -221,6 +228,7 @@ def step (st : DSt) (toks : List String) : DSt × String :=
   | "sys" :: mn :: tol :: vt :: stab :: cap :: rules =>
     ({ st with w := WSys.init (intD mn) (ratOf tol) (ratOf vt) ⟨rules.map ruleOf, intD stab⟩ (intD cap),
                regs := [], winSize := 100, minObs := 10 }, "ok")
+  | ["ids", _] => (st, "ok ## e:ids")      -- how the harness spells agent numbers as id strings: agents are distinct whatever the spelling
   | ["shadow"] => (st, "ok ## e:shadow")   -- other objects come alive and live their own history: nothing is shared
   | ["sysdef"] =>
     -- `ImmuneSystem()`: min_training_samples 10, Thymus(tolerance 2, variance_threshold 0.5), RegulatoryTCell(no rules,
@@ -366,6 +374,9 @@ def step (st : DSt) (toks : List String) : DSt × String :=
   | ["pset", a, "rep", k] => (st.withSys (st.sys.configT (natD a) (·.setRep (intD k))), "ok")
   | ["pset", a, "anergy", k] => (st.withSys (st.sys.configT (natD a) (·.setAnergy (intD k))), "ok")
   | ["pset", ag, "profile", a, b, c, d, e, f, em, vs, ss, cm] =>
+    (st.withSys (st.sys.configT (natD ag) (·.setProfile
+      ⟨ratOf a, ratOf b, ratOf c, ratOf d, ratOf e, ratOf f, ratOf em, natList vs, natList ss, ratOf cm⟩)), "ok")
+  | ["pmut", ag, a, b, c, d, e, f, em, vs, ss, cm] =>
     (st.withSys (st.sys.configT (natD ag) (·.setProfile
       ⟨ratOf a, ratOf b, ratOf c, ratOf d, ratOf e, ratOf f, ratOf em, natList vs, natList ss, ratOf cm⟩)), "ok")
   | "gset" :: stab :: rules => (st.withSys (st.sys.setTreg ⟨rules.map ruleOf, intD stab⟩), "ok")
